@@ -16,10 +16,10 @@ RULE = ('round trip: 1-3 cookies (names over the legal cookie-name alphabet; pla
         'handler, the emitted Set-Cookie header values are handed back verbatim by a harness "browser" as one Cookie header, and read with '
         'request.get_cookie / request.cookies. Tampering, per signed cookie value S = "!sig?msg": every single-byte substitution position x sampled '
         'replacement bytes (all 64 base64 characters at the last significant character of sig and msg), every deletion, every truncation length, '
-        'insertion of non-alphabet / padding / whitespace bytes at every position, signature swapped with another cookie, other secret, other name, signatures made with related keys (empty, NUL runs, prefixes / suffixes / single bytes / case variants of the secret), '
+        'insertion of non-alphabet / padding / whitespace bytes at every position, signature swapped with another cookie, other secret, other name, the value re-presented under a shorter / longer name with the moved characters spliced into payload or signature, signatures made with related keys (empty, NUL runs, prefixes / suffixes / single bytes / case variants of the secret), '
         'appended bytes, and canary payloads (pickle whose __reduce__ calls a recorder) under wrong / missing / unkeyed signatures. Oracle: '
         'untampered -> value equal; a presented value that is not a string signed with that secret for that name -> default, and neither the '
-        'pickle.loads proxy nor a canary fired. Concurrency: a thread signing with secret NEW against a thread verifying a cookie signed with OLD under NEW (and a genuine one), every single-preemption schedule under the deterministic scheduler. Non-trivial: round trip = value with a character outside the legal-unquoted set or signed nested '
+        'pickle.loads proxy nor a canary fired. Object graphs: signed values with shared and cyclic references (fixed shapes + generated graphs of 1-4 containers) must read back with the same shape (containers numbered in visiting order). Concurrency: a thread signing with secret NEW against a thread verifying a cookie signed with OLD under NEW (and a genuine one), every single-preemption schedule under the deterministic scheduler. Non-trivial: round trip = value with a character outside the legal-unquoted set or signed nested '
         'data; tamper = every distinct (cookie, tampered string) pair.')
 ASSUMPTIONS = ['the browser returns name=value exactly as emitted (bytes of the header viewed as Latin-1)',
                'empty plain values are outside the domain ("" is the deletion marker of this API)',
@@ -335,17 +335,35 @@ def check_tamper(ctx, case, full=False):
     for label, sg in (('canary_orig_sig', sig), ('canary_no_sig', ''), ('canary_garbage_sig', 'AAAAAAAAAAAAAAAAAAAAAA=='), ('canary_wrong_key_sig', bad_key_sig),
                       ('canary_md5_sig', base64.b64encode(hashlib.md5(msg_c.encode()).digest()).decode())):
         variants.append((label, '!' + sg + '?' + msg_c))
+    # splices between the cookie name and the payload / signature: presented under another name so that name + payload (or name + signature ...) spell the same text
+    variants = [(k_, T_, name) for k_, T_ in variants]
+    for k in range(1, len(name)):
+        variants.append(('name_suffix_moved_into_payload', '!' + sig + '?' + name[k:] + msg0, name[:k]))
+        variants.append(('name_suffix_moved_into_signature', '!' + name[k:] + sig + '?' + msg0, name[:k]))
+        variants.append(('name_suffix_moved_before_value', name[k:] + S, name[:k]))
+    for k in range(1, 5):
+        if all(ch in NAME_CHARS for ch in msg0[:k]):
+            variants.append(('payload_prefix_moved_into_name', '!' + sig + '?' + msg0[k:], name + msg0[:k]))
+        if all(ch in NAME_CHARS for ch in sig[:k]):
+            variants.append(('signature_prefix_moved_into_name', '!' + sig[k:] + '?' + msg0, name + sig[:k]))
+    variants.append(('bang_moved_into_name', S[1:], name + '!'))
     seen = set()
-    for kind, T in variants:
-        if T in seen or T == S:
+    for kind, T, rname in variants:
+        if (T, rname) in seen or (T == S and rname == name):
             continue
-        seen.add(T)
+        seen.add((T, rname))
         ctx.evals += 1
         with LoadsSpy() as spy:
             try:
-                (jar, val), = read_back(name + '=' + quote_cookie_value(T), [(name, secret)])
+                (jar, val), = read_back(rname + '=' + quote_cookie_value(T), [(rname, secret)])
             except Exception as e:
-                raise CheckFailure(f'reading a tampered cookie raised ({kind}): {T!r}: {fmt_exc(e)}')
+                raise CheckFailure(f'reading a tampered cookie raised ({kind}): {T!r} under the name {rname!r}: {fmt_exc(e)}')
+        if rname != name:
+            ctx.count('tamper_' + kind)
+            if val != SENTINEL or spy.calls or spy.canary:
+                raise CheckFailure(f'({kind}) cookie {name!r}={S!r} re-presented as {rname!r}={T!r} was accepted -> {val!r} ({spy.calls} unpickler calls)')
+            ctx.nontrivial('t:' + rname + ':' + S + ':' + T)
+            continue
         ctx.count('tamper_' + kind)
         if jar in valid:
             # the jar delivered a genuinely signed string (e.g. the other cookie's): value only if it is this name's
@@ -359,7 +377,7 @@ def check_tamper(ctx, case, full=False):
             raise CheckFailure(f'({kind}) payload of a tampered cookie was deserialised ({spy.calls} unpickler calls, {spy.canary} canaries): '
                                f'original {S!r}, presented {T!r}')
         ctx.nontrivial('t:' + name + ':' + S + ':' + T)
-    ctx.sample({'signed': S, 'tampered_examples': [v for _, v in variants[:3]] + [variants[-1][1][:60]]})
+    ctx.sample({'signed': S, 'tampered_examples': [v[1] for v in variants[:3]] + [variants[-1][1][:60]]})
 
 
 # ----------------------------------------------------------------- concurrent use of two secrets (the harness owns the schedule)
@@ -434,6 +452,90 @@ def check_sequence(ctx, case):
     ctx.nontrivial('seq:' + repr(case))
 
 
+# ----------------------------------------------------------------- values that are object graphs, not trees (shared and cyclic references)
+GRAPH = st.integers(1, 4).flatmap(lambda n: st.lists(
+    st.fixed_dictionaries({'t': st.sampled_from(['list', 'dict']),
+                           'edges': st.lists(st.one_of(st.integers(0, n - 1).map(lambda i: ['ref', i]), st.sampled_from([['leaf', 1], ['leaf', 'x'], ['leaf', None]])), max_size=4)}),
+    min_size=n, max_size=n))
+FIXED_GRAPHS = {
+    'list_containing_itself': [{'t': 'list', 'edges': [['ref', 0]]}],
+    'one_list_referenced_twice': [{'t': 'list', 'edges': [['ref', 1], ['ref', 1]]}, {'t': 'list', 'edges': [['leaf', 1]]}],
+    'dict_containing_itself': [{'t': 'dict', 'edges': [['leaf', 'x'], ['ref', 0]]}],
+    'parent_child_back_link': [{'t': 'dict', 'edges': [['ref', 1]]}, {'t': 'list', 'edges': [['ref', 0], ['leaf', None]]}],
+    'diamond': [{'t': 'list', 'edges': [['ref', 1], ['ref', 2]]}, {'t': 'list', 'edges': [['ref', 3]]}, {'t': 'dict', 'edges': [['ref', 3]]}, {'t': 'list', 'edges': [['leaf', 'x']]}],
+    'same_dict_forty_times': [{'t': 'list', 'edges': [['ref', 1]] * 40}, {'t': 'dict', 'edges': [['leaf', 'x'], ['leaf', 1]]}],
+}
+
+
+def build_graph(nodes):
+    objs = [[] if n['t'] == 'list' else {} for n in nodes]
+    for o, n in zip(objs, nodes):
+        for k, (kind, x) in enumerate(n['edges']):
+            v = objs[x] if kind == 'ref' else x
+            if n['t'] == 'list':
+                o.append(v)
+            else:
+                o['k%d' % k] = v
+    return objs[0]
+
+
+def fingerprint(root):
+    """canonical description of the object graph reachable from root: containers numbered in visiting order, sharing and cycles as back references"""
+    num, out, todo = {}, [], [root]
+    num[id(root)] = 0
+    while todo:
+        o = todo.pop(0)
+        items = list(o.items()) if isinstance(o, dict) else list(enumerate(o)) if isinstance(o, (list, tuple)) else None
+        if items is None:
+            out.append(('leaf', repr(o)))
+            continue
+        row = [type(o).__name__]
+        for k, v in items:
+            if isinstance(v, (list, dict)):
+                if id(v) not in num:
+                    num[id(v)] = len(num)
+                    todo.append(v)
+                row.append((repr(k), 'ref', num[id(v)]))
+            else:
+                row.append((repr(k), 'leaf', repr(v)))
+        out.append(tuple(row))
+    return out
+
+
+def check_graph(ctx, case):
+    value = build_graph(case['graph'])
+    want = fingerprint(value)
+    import ombott
+    app = ombott.Ombott()
+    box = {}
+
+    def h():
+        try:
+            app.response.set_cookie('g', value, secret=case['secret'])
+        except Exception as e:
+            box['refused'] = e
+        return 'ok'
+    app.route('/set', callback=h)
+    r = call_app(app, make_environ('GET', '/set'))
+    if r.escaped is not None or r.code != 200:
+        raise CheckFailure(f'setting a signed cookie failed: {r.status!r} {r.errors[-400:]}')
+    if 'refused' in box:
+        raise CheckFailure(f'set_cookie refused a picklable value ({len(case["graph"])} containers, {case["graph"]!r}): {fmt_exc(box["refused"])[-300:]}')
+    emitted = r.header_all('Set-Cookie')[0]
+    (jar, val), = read_back(emitted, [('g', case['secret'])])
+    if val == SENTINEL:
+        raise CheckFailure(f'signed cookie holding the object graph {case["graph"]!r} reads as absent')
+    got = fingerprint(val)
+    if got != want:
+        raise CheckFailure(f'signed cookie value is not read back unchanged: object graph {case["graph"]!r} has the shape {want!r}, read back {got!r} '
+                           f'(shared or cyclic references were not preserved)')
+    ctx.evals += 1
+    shared = len(want) < sum(1 for n in case['graph'] for e in n['edges'] if e[0] == 'ref') + 1
+    ctx.count('graph_with_shared_or_cyclic_reference' if shared else 'graph_tree_shaped')
+    if shared:
+        ctx.nontrivial('graph:' + repr(case['graph']))
+
+
 def witness_k15(ctx):
     """Pinned witness of open finding K15 (plain cookie above U+00FF)."""
     c = [{'name': 'w', 'secret': None, 'value': 'Ω'}]
@@ -449,7 +551,7 @@ def witness_k15(ctx):
 
 def run(ctx):
     for name, case in load_corpus(ID):
-        ctx.guarded(check_sequence if 'sequence' in case else check_threaded if 'threaded' in case else (check_tamper if 'other_secret' in case else check_roundtrip), case)
+        ctx.guarded(check_sequence if 'sequence' in case else check_graph if 'graph' in case else check_threaded if 'threaded' in case else (check_tamper if 'other_secret' in case else check_roundtrip), case)
         ctx.count('corpus')
     if ctx.shard == 0:
         ctx.guarded(lambda c, _: witness_k15(c), {'witness': 'K15'})
@@ -465,6 +567,9 @@ def run(ctx):
     n = 2500 if ctx.tier == 'quick' else 25000
     ctx.hyp(rt_case(), check_roundtrip, n, label='roundtrip')
     m = 25 if ctx.tier == 'quick' else 150
+    if ctx.shard == 0:
+        for nm, other in (('username', 'user'), ('user', 'username'), ('sid', 'sidAAAA'), ('a', 'b')):
+            ctx.guarded(check_tamper, {'name': nm, 'other_name': other, 'secret': 's3cret', 'other_secret': 'other', 'data': ['u', 7], 'other_data': {'$dict': [['k', 1]]}})
     ctx.hyp(tamper_case(), check_tamper, m, label='tamper', shrink=False)
     if ctx.shard == 0:
         import itertools
@@ -474,6 +579,11 @@ def run(ctx):
             for perm in itertools.permutations(g):
                 ctx.guarded(check_sequence, {'sequence': True, 'name': 'seq', 'secret': 's3cret', 'values': list(perm)})
         ctx.count('equal_but_distinct_value_sequences')
+    if ctx.shard == 0:
+        for gname, g in FIXED_GRAPHS.items():
+            ctx.guarded(check_graph, {'graph': g, 'secret': 's3cret'})
+        ctx.count('fixed_object_graphs', len(FIXED_GRAPHS))
+    ctx.hyp(st.fixed_dictionaries({'graph': GRAPH, 'secret': SECRET}), check_graph, 150 if ctx.tier == 'quick' else 3000, label='graph')
     if ctx.shard == 0:
         for old, new in (('old-secret', 'new-secret'), ('k', 'K'), ('é', 'e')):
             ctx.guarded(check_threaded, {'threaded': True, 'old': old, 'new': new, 'name': 'sid', 'data': ['user', 7]})
@@ -486,4 +596,6 @@ def replay(ctx, case):
         return check_threaded(ctx, case)
     if 'sequence' in case:
         return check_sequence(ctx, case)
+    if 'graph' in case:
+        return check_graph(ctx, case)
     (check_tamper if 'other_secret' in case else check_roundtrip)(ctx, case)
